@@ -265,6 +265,11 @@ func CheckC20(run *Run) {
 		nCalls, nRandom = 400, 200
 	}
 	reqs = append(reqs, RandomMockRequests(rand.New(rand.NewSource(run.Seed+20)), nRandom)...)
+	nShared := 3
+	if run.Tier == "thorough" {
+		nShared = 40
+	}
+	reqs = append(reqs, RandomSharedMockRequests(rand.New(rand.NewSource(run.Seed+2020)), nShared)...)
 	s := NewSession(run, reqs)
 	// build verdict on the emitted files alone (no harness shim)
 	w, err := NewGoWork(fmt.Sprintf("%s-%s-%s-v", run.Property, run.Tier, run.TreeHash))
